@@ -1,0 +1,50 @@
+// Copyright 2024 Huawei Cloud Computing Technologies Co., Ltd.
+//
+// Licensed under the Apache License, Version 2.0 (the "License");
+// you may not use this file except in compliance with the License.
+// You may obtain a copy of the License at
+//
+//     http://www.apache.org/licenses/LICENSE-2.0
+//
+// Unless required by applicable law or agreed to in writing, software
+// distributed under the License is distributed on an "AS IS" BASIS,
+// WITHOUT WARRANTIES OR CONDITIONS OF ANY KIND, either express or implied.
+// See the License for the specific language governing permissions and
+// limitations under the License.
+
+package immutable
+
+import (
+	"os"
+	"path/filepath"
+	"testing"
+
+	"github.com/openGemini/openGemini/lib/config"
+	"github.com/stretchr/testify/require"
+)
+
+// A compact log whose write was cut short right after a measurement name that ends with the
+// bytes of the log trailer looks complete to the trailer check. It must be treated as an
+// incomplete log (skipped), not as a reason to fail the start-up of the shard.
+func TestCompactLog_TornAfterTrailerLikeName(t *testing.T) {
+	shardDir := t.TempDir()
+	logDir := filepath.Join(shardDir, compactLogDir)
+	require.NoError(t, os.MkdirAll(logDir, 0750))
+
+	info := &CompactedFileInfo{
+		Name:    "mst" + string(compLogMagic),
+		IsOrder: true,
+		OldFile: []string{"00000001-0000-00000000.tssp", "00000002-0000-00000000.tssp"},
+		NewFile: []string{"00000001-0001-00000000.tssp.init"},
+	}
+	buf := append(info.marshal(nil), compLogMagic...)
+	torn := buf[:2+len(info.Name)] // length prefix + name: ends with the trailer bytes
+	logFile := filepath.Join(logDir, "0000000000000001-0000000000000001")
+	require.NoError(t, os.WriteFile(logFile, torn, 0600))
+
+	require.Equal(t, ErrDirtyLog, readCompactLogFile(logFile, &CompactedFileInfo{}))
+
+	lockPath := ""
+	require.NoError(t, procCompactLog(shardDir, logDir, &lockPath, config.TSSTORE))
+	require.NoError(t, recoverFile(shardDir, &lockPath, config.TSSTORE, nil))
+}
